@@ -292,7 +292,13 @@ def check(case, rec):
             return
         rec.cls("diff:" + d["kind"])
         rec.nt()
-        b = _build_route(s2, case["routes"][-1])
+        route_b = dict(case["routes"][-1])
+        if s2.get("type") is not None:
+            # transpose() does not carry the table type, so the
+            # "transpose twice" route is content preserving only when untyped
+            route_b["history"] = [o for o in route_b["history"]
+                                  if o["op"] != "transpose2"]
+        b = _build_route(s2, route_b)
         a = tabs[0]
         v = _verdicts(a, b)
         if v["a==b"] or v["b==a"] or not v["a!=b"] or not v["b!=a"] or \
